@@ -152,6 +152,7 @@ func VH_FRAG_xz() {
 	kind := vConcretize(int(vNondetU8("kind")) % vKinds())
 	z, data := vStream(kind)
 	frag := vConcretize(int(vNondetU8("frag")) % 4)
+	vAssume((kind*4+frag)%vShards() == vShardIdx())
 	r, err := NewReader(&vSrc{data: z, end: len(z), frag: frag})
 	vAssert(err == nil, "valid stream opens under any fragmentation")
 	nsym := 3
@@ -186,6 +187,7 @@ func VH_MS_xz() {
 		p0 = 1 + vConcretize(int(vNondetU8("leadingPad"))%8)
 	}
 	p1 := vConcretize(int(vNondetU8("pad1")) % (maxPad + 1))
+	vAssume((shape+4*p1)%vShards() == vShardIdx())
 	p2 := vConcretize(int(vNondetU8("pad2")) % (maxPad + 1))
 	single := vNondetBool("single")
 	var in, want []byte
